@@ -695,3 +695,45 @@ Definition run_C20n (tok : str) : val :=
   VL [VB (num_domain tok);
       VL [match py_int tok with Some z => VI z | None => VE (bs "ValueError"%bs) end;
           match py_float tok with Some v => num_val v | None => VE (bs "ValueError"%bs) end]].
+
+(* ---------------------------------------------------------------- pathlib.Path arguments that are no file *)
+(* os.fspath(pathlib.Path(s)) on POSIX (pathlib._parse_path / PurePosixPath.__str__): components are cut at "/", empty and "."
+   components are dropped, a leading "/" (exactly two: "//") is kept as root, nothing left gives "." *)
+Fixpoint split_slash (s cur : str) : list str :=
+  match s with
+  | [] => [rev cur]
+  | c :: r => if byte_eqb c "/"%byte then rev cur :: split_slash r [] else split_slash r (c :: cur)
+  end.
+Definition path_root (s : str) : str :=
+  match s with
+  | c1 :: r1 =>
+      if byte_eqb c1 "/"%byte
+      then match r1 with
+           | c2 :: r2 => if byte_eqb c2 "/"%byte
+                         then match r2 with
+                              | c3 :: _ => if byte_eqb c3 "/"%byte then [c1] else [c1; c2]
+                              | [] => [c1; c2]
+                              end
+                         else [c1]
+           | [] => [c1]
+           end
+      else []
+  | [] => []
+  end.
+Definition path_part (x : str) : bool := nonempty x && negb (str_eqb x (bs "."%bs)).
+Definition path_norm (s : str) : str :=
+  match path_root s ++ join (bs "/"%bs) (filter path_part (split_slash s [])) with
+  | [] => bs "."%bs
+  | t => t
+  end.
+(* submat(pathlib.Path(s)) when that path is no regular file *)
+Definition submat_path (s : str) : outcome := submat_name (path_norm s).
+
+(* op 9: submat(pathlib.Path(name)) in an empty working directory: the text pathlib hands over, and the result *)
+Definition run_C20p (name : str) : val :=
+  VL [VB (wf_C20 0 (path_norm name) [] && all_ascii name);
+      VL [VS (path_norm name);
+          match resolve false (path_norm name) with
+          | RFile raw => VL [VS (bs "file"%bs); VI (Z.of_nat (length raw)); VI (Z.of_N (cksum raw)); outcome_val (submat_path name)]
+          | _ => outcome_val (submat_path name)
+          end]].
